@@ -226,6 +226,9 @@ class PrecipitateModel (PrecipitateBase):
 
             self.PSDXalpha[p][:,0], self.PSDXbeta[p][:,0] = self.therm.getInterfacialComposition(T, self.particleGibbs(self.PBM[p].PSDbounds, self.precipitateParameters[p].phase), precPhase=self.precipitateParameters[p].phase)
             self.RdrivingForceIndex[p] = np.amax([np.argmax(self.PSDXalpha[p][:,0] != -1) - 1, 0])
+            #argmax is also 0 if no size class is stable, in which case the index is the last one (handled below)
+            if np.all(self.PSDXalpha[p][:,0] == -1):
+                self.RdrivingForceIndex[p] = self.PBM[p].bins
             self.precipitateParameters[p].RdrivingForceLimit = self.PBM[p].PSDbounds[self.RdrivingForceIndex[p]]
 
             #Sets particle radii smaller than driving force limit to driving force limit composition
